@@ -22,7 +22,7 @@
    run); [run_*] say which translated function each registered key denotes, in the vocabulary of
    the model's [op]s (Model/Instant.v run_op). *)
 From Coq Require Import ZArith QArith Bool String List Lia.
-From Ka Require Import Model.Instant Gen.GenFunctions Gen.GenInstantSrc.
+From Ka Require Import Model.Instant Proofs.InstantProofs Gen.GenFunctions Gen.GenInstantSrc.
 Import ListNotations.
 Local Open Scope string_scope.
 Local Open Scope Z_scope.
@@ -159,30 +159,6 @@ Lemma get_hour_is_source I : Ok (get_hour (us_of I)) = g_get_hour I.       Proof
 Lemma get_minute_is_source I : Ok (get_minute (us_of I)) = g_get_minute I. Proof. reflexivity. Qed.
 Lemma get_second_is_source I : Ok (get_second (us_of I)) = g_get_second I. Proof. reflexivity. Qed.
 
-(* ------------------------------------------------------------------ floor / ceil
-   datetime(dt.year, dt.month, dt.day): midnight of the wall-clock date, as a NAIVE instant
-   (the source drops the time zone); ceil adds timedelta(days=1), OverflowError on 9999-12-31 *)
-Lemma floor_instant_is_source I :
-  (do r <- floor_instant (us_of I); Ok (naive_inst r)) = g_floor_instant I.
-Proof.
-  unfold g_floor_instant, floor_instant, datetime3, dt_year, dt_month, dt_day,
-    get_year, get_month, get_day, us_of.
-  destruct (date_of (dt_us (i_dt I))) as [[y m] d]. cbn [fst snd].
-  destruct (datetime_new y m d 0 0 0 0); reflexivity.
-Qed.
-
-Lemma ceil_instant_is_source I :
-  (do r <- ceil_instant (us_of I); Ok (naive_inst r)) = g_ceil_instant I.
-Proof.
-  unfold g_ceil_instant, ceil_instant, floor_instant, datetime3, dt_plus_td, dt_year, dt_month, dt_day,
-    get_year, get_month, get_day, us_of.
-  destruct (date_of (dt_us (i_dt I))) as [[y m] d]. cbn [fst snd].
-  destruct (datetime_new y m d 0 0 0 0) as [f|]; cbn [bind]; [|reflexivity].
-  destruct (td_of_days 1) as [t|]; cbn [bind]; [|reflexivity].
-  cbn [naive dt_us dt_off].
-  destruct (add_td f t); reflexivity.
-Qed.
-
 (* ------------------------------------------------------------------ I1 - I2
    awareness check first; Quantity((I1.dt - I2.dt).total_seconds(), SECONDS) *)
 Lemma instant_minus_instant_is_source A B :
@@ -194,6 +170,91 @@ Proof.
   unfold g_instant_minus_instant. rewrite <- (check_same_awareness_is_source A B).
   unfold dt_minus_dt. rewrite same_awareness_dt.
   destruct (same_awareness A B); reflexivity.
+Qed.
+
+(* ------------------------------------------------------------------ floor / ceil
+   datetime(dt.year, dt.month, dt.day, tzinfo=dt.tzinfo): midnight of the wall-clock date, in
+   the SAME time zone (the offset is kept; a naive instant stays naive); ceil adds
+   timedelta(days=1), OverflowError on 9999-12-31 *)
+Lemma floor_instant_is_source I :
+  (do r <- floor_instant (us_of I); Ok (with_us I r)) = g_floor_instant I.
+Proof.
+  unfold g_floor_instant, floor_instant, datetime3_tz, dt_tzinfo, dt_year, dt_month, dt_day,
+    get_year, get_month, get_day, us_of, with_us, off_of.
+  destruct (date_of (dt_us (i_dt I))) as [[y m] d]. cbn [fst snd].
+  destruct (datetime_new y m d 0 0 0 0); reflexivity.
+Qed.
+
+Lemma ceil_instant_is_source I :
+  (do r <- ceil_instant (us_of I); Ok (with_us I r)) = g_ceil_instant I.
+Proof.
+  unfold g_ceil_instant, ceil_instant, floor_instant, datetime3_tz, dt_tzinfo, dt_plus_td, dt_year, dt_month,
+    dt_day, get_year, get_month, get_day, us_of, with_us, off_of.
+  destruct (date_of (dt_us (i_dt I))) as [[y m] d]. cbn [fst snd].
+  destruct (datetime_new y m d 0 0 0 0) as [f|]; cbn [bind]; [|reflexivity].
+  destruct (td_of_days 1) as [t|]; cbn [bind]; [|reflexivity].
+  cbn [dt_us dt_off].
+  destruct (add_td f t); reflexivity.
+Qed.
+
+(* floor and ceil keep the awareness and the offset of their argument *)
+Lemma floor_ceil_keep_offset I R :
+  g_floor_instant I = Ok R \/ g_ceil_instant I = Ok R -> off_of R = off_of I.
+Proof.
+  rewrite <- floor_instant_is_source, <- ceil_instant_is_source.
+  intros [H|H];
+    [destruct (floor_instant (us_of I)) | destruct (ceil_instant (us_of I))];
+    cbn [bind] in H; inversion H; reflexivity.
+Qed.
+
+Lemma with_us_same I r s :
+  same_awareness (with_us I r) I = true /\ same_awareness I (with_us I r) = true
+  /\ same_awareness (with_us I r) (with_us I s) = true.
+Proof.
+  unfold same_awareness, with_us, off_of. cbn [i_dt dt_off].
+  destruct (is_none (dt_off (i_dt I))); repeat split.
+Qed.
+Lemma with_us_utc I r : utc_of (with_us I r) = r - (us_of I - utc_of I).
+Proof.
+  unfold utc_of, dt_utc, with_us, off_of, us_of. cbn [i_dt dt_off dt_us].
+  destruct (dt_off (i_dt I)); lia.
+Qed.
+
+(* for EVERY instant of years 1..9999, aware or naive: floor(I) exists, floor(I) <= I and
+   I < ceil(I) are comparable (no KaRuntimeError) and true, ceil(I) - floor(I) is one day; ceil
+   fails only with OverflowError (9999-12-31, Properties/C17.v C17_ceil_overflow_iff) *)
+Theorem floor_le_lt_ceil_comparable I : in_range (us_of I) = true ->
+  exists F, g_floor_instant I = Ok F
+    /\ off_of F = off_of I
+    /\ g_intify_f_new g_instant_leq F I = Ok 1
+    /\ (forall C, g_ceil_instant I = Ok C ->
+          off_of C = off_of I
+          /\ g_intify_f_new g_instant_lt I C = Ok 1
+          /\ g_instant_minus_instant C F
+             = Ok {| q_mag := NFlt (total_seconds US_PER_DAY); q_dims := seconds_dims |})
+    /\ (g_ceil_instant I = Raise OverflowError \/ exists C, g_ceil_instant I = Ok C).
+Proof.
+  intro Hr.
+  destruct (floor_ceil_laws (us_of I) Hr) as (f & Hf & Hle & _ & _ & _ & _ & Hc).
+  exists (with_us I f).
+  rewrite <- floor_instant_is_source, <- ceil_instant_is_source, Hf. cbn [bind].
+  destruct (with_us_same I f (f + US_PER_DAY)) as (S1 & S2 & S3).
+  split; [reflexivity|]. split; [reflexivity|]. split.
+  - rewrite <- cmp_leq_is_source. unfold lift_cmp. rewrite S1, with_us_utc.
+    unfold instant_cmp. rewrite (proj2 (Z.leb_le _ _)) by lia. reflexivity.
+  - split.
+    + intros C HC. destruct Hc as [[Hok _]|[Hov _]]; [rewrite Hok in HC|rewrite Hov in HC];
+        cbn [bind] in HC; [|discriminate]. inversion HC; subst C; clear HC.
+      destruct (with_us_same I (f + US_PER_DAY) f) as (_ & S5 & S4).
+      split; [reflexivity|]. split.
+      * rewrite <- cmp_lt_is_source. unfold lift_cmp. rewrite S5, with_us_utc.
+        unfold instant_cmp. rewrite (proj2 (Z.ltb_lt _ _)) by lia. reflexivity.
+      * rewrite <- instant_minus_instant_is_source. rewrite S4.
+        rewrite !with_us_utc. unfold instant_minus_instant.
+        replace (f + US_PER_DAY - (us_of I - utc_of I) - (f - (us_of I - utc_of I))) with US_PER_DAY by lia.
+        reflexivity.
+    + destruct Hc as [[Hok _]|[Hov _]]; [right; exists (with_us I (f + US_PER_DAY)); rewrite Hok
+                                         | left; rewrite Hov]; reflexivity.
 Qed.
 
 (* ------------------------------------------------------------------ I + q, I - q, I + n, I - n
@@ -392,9 +453,9 @@ Definition run (name : string) (args : list val) : res val :=
   end.
 Definition inst_res (r : res instant) : res val := do x <- r; Ok (VInst x).
 
-Lemma run_floor I : run "floor" [VInst I] = inst_res (do r <- floor_instant (us_of I); Ok (naive_inst r)).
+Lemma run_floor I : run "floor" [VInst I] = inst_res (do r <- floor_instant (us_of I); Ok (with_us I r)).
 Proof. rewrite floor_instant_is_source. reflexivity. Qed.
-Lemma run_ceil I : run "ceil" [VInst I] = inst_res (do r <- ceil_instant (us_of I); Ok (naive_inst r)).
+Lemma run_ceil I : run "ceil" [VInst I] = inst_res (do r <- ceil_instant (us_of I); Ok (with_us I r)).
 Proof. rewrite ceil_instant_is_source. reflexivity. Qed.
 
 Lemma run_year I : run "year" [VInst I] = Ok (VInt (get_year (us_of I))).     Proof. reflexivity. Qed.
@@ -500,6 +561,8 @@ Print Assumptions get_minute_is_source.
 Print Assumptions get_second_is_source.
 Print Assumptions floor_instant_is_source.
 Print Assumptions ceil_instant_is_source.
+Print Assumptions floor_ceil_keep_offset.
+Print Assumptions floor_le_lt_ceil_comparable.
 Print Assumptions instant_minus_instant_is_source.
 Print Assumptions instant_plus_quantity_is_source.
 Print Assumptions instant_minus_quantity_is_source.
